@@ -1453,6 +1453,35 @@ func c8argumentLists(c *Ctx) {
 	}
 }
 
+// c8dryFilter: top(n) behind a filter that RUNS DRY. `iterator.FirstN` (external library) returns when item n+1 ARRIVES; behind an
+// accept that lets exactly n items through and nothing afterwards that item never arrives, and the whole source is walked although
+// the result has been decided with the n-th item (open finding C08-top-behind-dry-filter, reported by a round-5 seeding
+// sub-agent: `numbers(100000000000).accept(n -> n < 3).top(3).size()` does not terminate). The sources here are finite (two
+// million elements) so that the case costs a second, not a time-out; the violation is the number of closure evaluations.
+func c8dryFilter(c *Ctx) {
+	var wcs []*workerCase
+	for i, src := range []string{
+		"numbers(2000000).accept(n -> tick(n) < 3).top(3).size()",
+		"numbers(2000000).accept(n -> tick(n) < 3).top(3).sum()",
+		"numbers(2000000).map(n -> tick(n)).accept(n -> n < 5).top(5).map(n -> n + 1).size()",
+		"numbers(2000000).accept(n -> tick(n) < 3).multiUse({t: l -> l.top(3).size()}).t",
+	} {
+		wcs = append(wcs, &workerCase{id: fmt.Sprintf("df%d", i), a: 0, flags: "opt", src: src})
+	}
+	parallelBatches(wcs, 4, false, 4, 120*time.Second)
+	for _, wc := range wcs {
+		c.Case("dry-filter|"+wc.src, true)
+		c.Count("top-behind-dry-filter")
+		replay := map[string]any{"program": wc.src, "outcome": wc.outcome, "closure_evaluations": wc.ticks, "limit": 16}
+		switch {
+		case wc.outcome == "TIMEOUT" || wc.outcome == "CRASH" || !strings.HasPrefix(wc.outcome, "OK "):
+			c.Violation("top-behind-dry-filter-fails", "unexpected outcome "+wc.outcome, replay)
+		case wc.ticks > 16:
+			c.Violation("top-behind-dry-filter", fmt.Sprintf("top(n) had its n items after a handful of source elements, but the closures of the pipeline were evaluated %d times: the source is walked to its end because the stage waits for item n+1 before it stops", wc.ticks), replay)
+		}
+	}
+}
+
 // c8abruptExit: the iteration is left by a Go PANIC of the consumer or of a comparison function (a host function that panics, the
 // value-stack guard), caught by try/catch - not by the consumer answering "stop". Whatever runs on behalf of the pipeline
 // (the producer goroutines of merge, the workers of a parallel stage, the multiUse source) has to stop all the same: no closure
@@ -1555,6 +1584,7 @@ func runC08(c *Ctx) {
 		c8lazyWrappers(c)
 		c8argumentLists(c)
 		c8abruptExit(c)
+		c8dryFilter(c)
 	}
 	c.rule = "pipelines source (numbers(n) | host-provided lazy list | list literal | a+b) -> 0..3 lazy stages (map, accept, top, skip, combine, combine3, combineN, iir, iirCombine, number, compact; a counting host function inside every closure) -> short-circuit consumer (first, single, top(v).size, top(v) collected, present, indexWhere, ~, multiUse of 1..3 of them), evaluated by the real code in a child process for the decisive element at positions k in 0..200, sources of the demanded length, +1, 10^3/2*10^4 and 10^11, and a throwing element before/at/behind the decisive one in every closure and in the source; every evaluation is one case; non-trivial = at least one lazy stage between source and consumer and at least two source elements pulled (k >= 1)"
 	c.assume = append(c.assume,
